@@ -7,6 +7,7 @@ import (
 	"runtime/debug"
 	"sync"
 	"sync/atomic"
+	"syscall"
 	"time"
 
 	"verif/internal/ev"
@@ -20,7 +21,7 @@ type worker struct {
 	rec      *ev.Recorder
 	inflight *os.File
 	seq      int
-	markLen  int
+	markMap  []byte
 	lastMark atomic.Int64 // unix nanos of the last in-flight mark
 	ntMu     sync.Mutex
 	nt       map[string]struct{}
@@ -34,16 +35,13 @@ func (w *worker) known(id string) bool { return w.kf[id] }
 func (w *worker) mark(c Case, fn, t int) {
 	w.seq++
 	b, _ := json.Marshal(Inflight{Case: c, Fn: fn, T: t, Seq: w.seq})
-	// one write, no truncate: pad with blanks up to the longest record so far
-	// (the reader trims them)
-	if len(b) > w.markLen {
-		w.markLen = (len(b)/256 + 1) * 256
-	}
-	for len(b) < w.markLen {
-		b = append(b, ' ')
-	}
-	if w.inflight != nil {
-		w.inflight.WriteAt(b, 0)
+	// the marker file is mapped into memory (MAP_SHARED): no system call per
+	// case, and the kernel keeps the pages when the process dies
+	if w.markMap != nil && len(b)+1 <= len(w.markMap) {
+		n := copy(w.markMap, b)
+		w.markMap[n] = '\n'
+	} else if w.inflight != nil {
+		w.inflight.WriteAt(append(b, '\n'), 0)
 	}
 	w.lastMark.Store(time.Now().UnixNano())
 }
@@ -107,6 +105,12 @@ func childMain(job Job) {
 	f, err := os.OpenFile(job.Inflight, os.O_CREATE|os.O_RDWR, 0o644)
 	if err == nil {
 		w.inflight = f
+		const sz = 1 << 20
+		if f.Truncate(sz) == nil {
+			if m, err := syscall.Mmap(int(f.Fd()), 0, sz, syscall.PROT_READ|syscall.PROT_WRITE, syscall.MAP_SHARED); err == nil {
+				w.markMap = m
+			}
+		}
 	}
 	w.watchdog()
 	switch job.Mode {
